@@ -97,10 +97,61 @@ def reuse_after_failure(ctx):
                               expected="run returns or raises", actual=str(pay2), kind="history")
 
 
+def absorbed_failures(ctx):
+    """limited jobs that fail under catch_all / catch while other jobs wait for the same limit (oracle only: the
+    scheduler-core model has no catch forms).  The failure is absorbed, so the run must go on and finish."""
+    import ctl_sched
+    from redun import task
+    from redun.scheduler import catch, catch_all
+    ctl_sched.quiet()
+
+    @task(namespace="c09a", version="1", limits=["r0"])
+    def hold(i, fail):
+        if fail:
+            raise ValueError("boom %d" % i)
+        return i
+
+    @task(namespace="c09a", version="1")
+    def recover(results):
+        return [r if not isinstance(r, Exception) else "err" for r in results]
+
+    @task(namespace="c09a", version="1")
+    def recover1(error):
+        return "err"
+
+    @task(namespace="c09a", version="1")
+    def main_all(pattern):
+        return catch_all([hold(i, f) for i, f in enumerate(pattern)], ValueError, recover)
+
+    @task(namespace="c09a", version="1")
+    def main_each(pattern):
+        return [catch(hold(i, f), ValueError, recover1) for i, f in enumerate(pattern)]
+
+    rng = ctx.rng
+    patterns = [[True, True, False, False], [True, False, True, False], [False, True, True, True], [True, True, True, True],
+                [True, False, False], [False, False, True, True, False]]
+    for pattern in patterns:
+        for lim in (1, 2):
+            for main in (main_all, main_each):
+                for k in range(ctx.n(2, 6)):
+                    c = ctl_sched.Ctl(rng=random.Random(rng.random()))
+                    sched = ctl_sched.make_scheduler(c, limits={"r0": lim})
+                    st, payload = c.run(sched, main(pattern))
+                    ctx.case(key=("absorbed", tuple(pattern), lim, main.name, tuple(j.eval_args[0][0] if j.eval_args else -1 for j in c.completions)),
+                             sample={"pattern": pattern, "limit": lim, "form": main.name, "status": st}, kind="absorbed-failure", status=st)
+                    if st == "hang":
+                        ctx.violation("C09-hang-idle-with-pending-workflow", "scheduler idle while the workflow is pending (failure absorbed by catch)",
+                                      case={"form": main.name, "pattern": pattern, "limit": lim,
+                                            "completion_order": [str(j.task.name) for j in c.completions]},
+                                      expected="run returns", actual=dict(msg=str(payload), waiting=len(sched._jobs_pending_limits),
+                                                                          limits_used=dict(sched.limits_used)), kind="schedule")
+
+
 def run(ctx):
     rng = ctx.rng
     items = []
     reuse_after_failure(ctx)
+    absorbed_failures(ctx)
     for defs, cfg in base.CORPUS:
         p = base.mk_prog(defs, cfg)
         if not sc.feasible(p):
